@@ -72,4 +72,9 @@ theorem C20_layer_is_translated :
     Gen.allowMissingSenderStatus.toU16 = statusInternal ∧ Gen.allowUnlistedSenderStatus.toU16 = statusNotFound ∧
     Gen.towerShapeChecked = true := ⟨rfl, rfl, rfl⟩
 
+/-- **Identities are compared as the model compares them**: `PeerId` is 32 bytes with the DERIVED equality,
+hash and order (checked on this run; a hand-written `PartialEq`/`Hash`/`Ord` is reported as a broken
+tie), so "the sender is in the list" is membership of a byte string in a set of byte strings. -/
+theorem C20_identity_is_pinned : Gen.peerIdShapeChecked = true := rfl
+
 end Anemo
